@@ -109,16 +109,20 @@ def selfcheck_kernels(ir, cpu_ops, rng, quick=True):
             if kname not in have:
                 continue
             out = getattr(cpu_ops, kname)(yp.copy(), yt.copy())
-            if out.shape != (N, 1):
-                mism.append({"kernel": kname, "case": "result shape %s, expected (N,1)" % (out.shape,)}); continue
+            want_shape = (N, 1) if ir["kernels"][kname]["ret"][0][1] == "keep" else (N,)     # the kind IS the reading of the shape
+            if out.shape != want_shape:
+                mism.append({"kernel": kname, "case": "result shape %s, translated as %s" % (out.shape, want_shape)}); continue
             for r in range(N):
                 got = ev.run(kname, {"y_pred": yp[r].tolist(), "y_true": int(yt[r])})
-                cmp_vec(kname, {"N": N, "C": C, "row": r, "y_pred": yp[r].tolist(), "y_true": int(yt[r])}, got, [out[r, 0]])
+                cmp_vec(kname, {"N": N, "C": C, "row": r, "y_pred": yp[r].tolist(), "y_true": int(yt[r])}, got, [out.reshape(-1)[r]])
                 nontrivial += 1 if C > 1 else 0
         for kname in ("nll_loss_backward", "cross_entropy_loss_backward"):
             if kname not in have:
                 continue
-            out = getattr(cpu_ops, kname)(g.copy(), yp.copy(), yt.copy())
+            gk = dict(ir["kernels"][kname]["params"])["grad"]
+            out = getattr(cpu_ops, kname)(g.copy() if gk == "keep" else g.reshape(-1).copy(), yp.copy(), yt.copy())
+            if out.shape != (N, C):
+                mism.append({"kernel": kname, "case": "result shape %s for an upstream gradient of shape %s" % (out.shape, "(N,1)" if gk == "keep" else "(N,)")}); continue
             for r in range(N):
                 got = ev.run(kname, {"grad": float(g[r, 0]), "y_pred": yp[r].tolist(), "y_true": int(yt[r])})[0]
                 cmp_vec(kname, {"N": N, "C": C, "row": r, "grad": float(g[r, 0]), "y_pred": yp[r].tolist(), "y_true": int(yt[r])}, got, out[r])
